@@ -228,7 +228,7 @@ func wireSame(texts []string, hist []lspReq) (same bool, detail string) {
 	go func() { done <- cmd.Wait() }()
 	select {
 	case <-done:
-	case <-time.After(20 * time.Second):
+	case <-time.After(180 * time.Second):
 		cmd.Process.Kill()
 		return false, "the server did not exit at end of input"
 	}
